@@ -736,7 +736,12 @@ class Merger:
                 "Merger::_insert_list:  Merging a list into a set.")
             mset = CommentedSet()
             for ele in rhs:
-                mset.add(ele)
+                try:
+                    mset.add(ele)
+                except TypeError as wrap_ex:
+                    raise MergeException(
+                        "Impossible to add complex Array elements to a Set.",
+                        insert_at) from wrap_ex
             merged_data = self._merge_sets(
                 lhs, mset, insert_at, NodeCoords(rhs, None, None))
             merge_performed = True
